@@ -580,7 +580,7 @@ enum G {
     Proof,
 }
 
-fn gen_script(rng: &mut Rng, depth: u32, regs: &mut Vec<G>, n_globals: &mut u32, budget: &mut i32) -> Vec<u8> {
+fn gen_script(rng: &mut Rng, depth: u32, regs: &mut Vec<G>, n_globals: &mut u32, budget: &mut i32, faucet_used: &mut bool) -> Vec<u8> {
     let mut s: Vec<u8> = vec![];
     let n_ops = 1 + rng.below(if depth == 0 { 9 } else { 5 });
     for _ in 0..n_ops {
@@ -596,7 +596,24 @@ fn gen_script(rng: &mut Rng, depth: u32, regs: &mut Vec<G>, n_globals: &mut u32,
                 *rng.pick(&c)
             }
         };
-        match rng.below(100) {
+        let has = |regs: &Vec<G>, want: &[G]| -> bool { regs.iter().any(|g| want.contains(g)) };
+        let mut roll = rng.below(100);
+        // steer away from ops that have nothing to work on (kept with a small probability)
+        let starved = match roll {
+            18..=33 => !has(regs, &[G::Obj, G::Bucket, G::Proof, G::Resv]),
+            42..=51 => !has(regs, &[G::Obj]),
+            91..=94 => !has(regs, &[G::Bucket]),
+            95..=97 => !has(regs, &[G::Proof]),
+            86..=90 => *faucet_used,
+            _ => false,
+        };
+        if starved && !rng.chance(1, 10) {
+            roll = *rng.pick(&[0u64, 0, 34, 52, 64, 86]);
+            if roll == 86 && *faucet_used {
+                roll = 0;
+            }
+        }
+        match roll {
             0..=17 => {
                 let name = *rng.pick(&[0u8, 0, 1, 1, 2, 2, 3]);
                 s.extend([1, name]);
@@ -647,7 +664,7 @@ fn gen_script(rng: &mut Rng, depth: u32, regs: &mut Vec<G>, n_globals: &mut u32,
                 if rng.chance(1, 25) {
                     args.push(rng.below(regs.len() as u64 + 1) as u8);
                 }
-                let sub = gen_script(rng, depth + 1, &mut sub_regs, n_globals, budget);
+                let sub = gen_script(rng, depth + 1, &mut sub_regs, n_globals, budget, faucet_used);
                 if sub.len() > 100 {
                     continue;
                 }
@@ -663,7 +680,10 @@ fn gen_script(rng: &mut Rng, depth: u32, regs: &mut Vec<G>, n_globals: &mut u32,
             }
             86..=90 => {
                 s.push(8);
-                regs.push(G::Bucket);
+                if !*faucet_used {
+                    regs.push(G::Bucket);
+                }
+                *faucet_used = true;
             }
             91..=94 => {
                 let i = pick(rng, regs, &[G::Bucket]);
@@ -696,7 +716,8 @@ impl Area for A {
             let mut regs = vec![];
             let mut n_globals = 3u32;
             let mut budget = 14i32;
-            let s = gen_script(rng, 0, &mut regs, &mut n_globals, &mut budget);
+            let mut faucet_used = false;
+            let s = gen_script(rng, 0, &mut regs, &mut n_globals, &mut budget, &mut faucet_used);
             let s: Vec<String> = s.iter().take(200).map(|b| b.to_string()).collect();
             writeln!(out, "run {} {} {}", rng.below(2), rng.below(2), s.join(" ")).unwrap();
         }
